@@ -67,6 +67,17 @@ def main():
                     print(p.stdout[-800:])
         finally:
             clean_repo()
-    json.dump(rows, open(os.path.join(VERIF, "target", "selftest_%s.json" % a.dir), "w"), indent=1)
+    os.makedirs(os.path.join(VERIF, "selftest"), exist_ok=True)
+    outp = os.path.join(VERIF, "selftest", "%s%s.json" % (a.dir, "" if not only else "_partial"))
+    json.dump({"engines": a.engines or "e1,e2,e3", "seed": a.seed, "rows": rows}, open(outp, "w"), indent=1)
+    if a.dir == "seeded":
+        for r in rows:
+            mp = os.path.join(VERIF, "seeded", r["name"], "meta.json")
+            if os.path.exists(mp) and "property" in r:
+                m = json.load(open(mp))
+                m.setdefault("caught_by", {})
+                m["caught_by"][r["property"]] = {"fired": r["fired"], "engines": a.engines or "e1,e2,e3", "first_report": r.get("first", "")}
+                m["ran"] = "driver/selftest.py --dir seeded: git -C /repo apply patch.diff; python3 driver/run_check.py <property> --tier quick; git -C /repo checkout -- ."
+                json.dump(m, open(mp, "w"), indent=1)
 
 main()
